@@ -48,10 +48,11 @@ TICK = ['vpH_tick_CheckQuorum_et2', 'vpH_tick_CheckQuorum_inactive_et2', 'vpH_ti
 LOG = ['vpH_log_maybeAppend_0_2_1', 'vpH_log_slice_2_1', 'vpH_log_term_2_1', 'vpH_log_storageAppend_2_2', 'vpH_log_storageCompact_2', 'vpH_log_storageSnapshots_2', 'vpH_log_storageQueries_2', 'vpH_log_queries_1_1', 'vpH_log_unstableOps_1_2', 'vpH_log_maybeAppend_1_1_2']
 LOG_T = ['vpH_log_storageAppend_3_3', 'vpH_log_storageCompact_3', 'vpH_log_storageSnapshots_2', 'vpH_log_storageQueries_3', 'vpH_log_queries_2_2', 'vpH_log_unstableOps_2_2', 'vpH_log_maybeAppend_2_2_2']
 CONF = ['vpH_conf_Propose_2', 'vpH_conf_Propose_2_joint', 'vpH_conf_Apply_L', 'vpH_conf_Apply_F']
+CONF_T = CONF + ['vpH_conf_Propose_3', 'vpH_conf_Apply_L2', 'vpH_conf_Apply_F2']
 SIZE = ['vpH_size_L_MsgHeartbeatResp', 'vpH_size_L_MsgProp', 'vpH_size_L_MsgAppResp']
 TRACK = ['vpH_t_InflightsAdd_3', 'vpH_t_InflightsFree_3', 'vpH_t_InflightsMisc_3', 'vpH_t_ProgressOps']
 TRACK_T = ['vpH_t_InflightsAdd_4', 'vpH_t_InflightsFree_4', 'vpH_t_InflightsMisc_4', 'vpH_t_ProgressOps']
-DET = ['vpH_det_F_MsgVote', 'vpH_det_F_MsgApp', 'vpH_det_F_MsgHup', 'vpH_det_C_MsgVoteResp', 'vpH_det_P_MsgPreVoteResp', 'vpH_det_L_MsgHeartbeatResp', 'vpH_det_L_MsgProp', 'vpH_det_L_MsgBeat', 'vpH_det_L_MsgCheckQuorum', 'vpH_det_L_MsgReadIndex']
+DET = ['vpH_det_F_MsgHup_bigids', 'vpH_det_L_MsgBeat_bigids', 'vpH_det_F_MsgVote', 'vpH_det_F_MsgApp', 'vpH_det_F_MsgHup', 'vpH_det_C_MsgVoteResp', 'vpH_det_P_MsgPreVoteResp', 'vpH_det_L_MsgHeartbeatResp', 'vpH_det_L_MsgProp', 'vpH_det_L_MsgBeat', 'vpH_det_L_MsgCheckQuorum', 'vpH_det_L_MsgReadIndex']
 DET_T = DET + ['vpH_det_F_MsgSnap', 'vpH_det_L_MsgAppResp']
 
 ALL_STEP = VOTE + VRESP + HUP + HB + APP + SNAP + PROP + LEAD + LEAD_HBR + SMALL
@@ -164,7 +165,7 @@ prop("C09",
 
 prop("C10",
      H(CONF, ["G1/", "G4/", "Q1/", "P1/"]) + H(HUP[:3] + HUP[4:7], ["G3/"]) + H(ACK[:3], ["G6/"]) + H(VRESP[:2], ["E3/"]),
-     H(CONF + ['vpH_conf_Propose_3'], ["G1/", "G4/", "Q1/", "P1/"]) + H(T(HUP), ["G3/"]) + H(ACK[:3], ["G6/"]) + H(T(VRESP), ["E3/"]),
+     H(CONF_T, ["G1/", "G4/", "Q1/", "P1/"]) + H(T(HUP), ["G3/"]) + H(ACK[:3], ["G6/"]) + H(T(VRESP), ["E3/"]),
      BQ + BT + "Propose gate: <= 2 (3) entries per proposal, each normal / ConfChange / ConfChangeV2 with <= 2 changes, symbolic types and node ids; ApplyConfChange: <= 2 changes over ids 1..4 on shapes {simple, joint, joint+LearnersNext, self learner}, restricted to changes the Changer accepts (A-cc). " + OUT,
      "G1 the propose gate keeps at most one unapplied configuration change and refuses enter/leave mismatches, G3 no campaign with a committed-but-unapplied change, G4 ApplyConfChange installs exactly the Changer's result (C13) and handles leader removal, G5 election and commit quorums are joint (E3, Q1 on joint shapes), G6 auto-leave is proposed exactly when the joint configuration has been applied.")
 
@@ -200,7 +201,7 @@ prop("C14",
      "No run of any cell ends in a panic (explicit panic, Logger.Panic*, index/slice out of range, nil dereference, nil-map write, failed type assertion, division by zero) and the representation invariant holds afterwards, under Inv, the V-* input assumptions, A-cc and the storage contract.")
 
 prop("C19",
-     H(DET, ["T1/"]),
+     H(DET, ["T1/"]) + H(['vpH_t_VisitOrder_9'], ["T1/"], policies=[0, 1, 2]),
      H(DET_T, ["T1/"]) + H(['vpH_t_VisitOrder_9'], ["T1/"], policies=[0, 1, 2]),
      BQ + "Each determinism cell builds the same symbolic state and message three times and steps it under three map-iteration policies (ascending, descending, rotated by one); shapes {three voters, joint, joint+LearnersNext}. Outside: the other 3!-3 orders of three-key maps, byte-wise comparison of long concrete runs in a separate process.",
      "T1: for all inputs the outputs (error, hard/soft state, log, both message queues in order and field by field, progress, votes, read states, configuration) are equal under different map iteration orders (relational, decided by the solver); T2: reaching time, math/rand, crypto/rand (other than lockedRand.Intn), goroutines or channels from a RawNode entry point ends the check as a violation.")
